@@ -64,6 +64,17 @@ def gen_case(rng, tier, idx):
                                     "priceChangeRate": rng.choice([-0.05, 0.05, -0.2]), "orderVolume": rng.choice([3, 7]),
                                     "orderTimeLength": rng.choice([2, 7, 30])}
                 ss[0].setdefault("events", []).append("OMS%d" % j)
+        elif idx % 20 == 9:
+            # a trading halt rule that any fill trips, and agents that send several orders in one submission: the rule
+            # switches matching off between two orders of one batch
+            cfg = c["config"]
+            cfg["HALT"] = {"class": "TradingHaltRule", "targetMarkets": list(cfg["simulation"]["markets"]),
+                           "triggerChangeRate": rng.choice([0.0, 0.0, 0.002]), "haltingTimeLength": rng.choice([1, 2, 3])}
+            cfg["simulation"]["sessions"][0].setdefault("events", []).append("HALT")
+            for k, v in cfg.items():
+                if isinstance(v, dict) and "program" in v:
+                    v["program"]["max_batch"] = max(v["program"].get("max_batch", 1), 3)
+                    v["program"]["p_act"] = 1.0
         return c
     if idx % 10 == 2:
         from ..direct import gen_deep_auction_history
